@@ -129,6 +129,18 @@ def check_inproc(ctx, cases, stats, coq_name="cases_c08", tool=None):
     nfail = 0
     good = []
     shrunk = 0
+    for c in [x for x in cases if x.get("kind") == "cache"]:
+        stats["cache_streams"] = stats.get("cache_streams", 0) + 1
+        stats["cache_same_second"] = stats.get("cache_same_second", 0) + (1 if (c.get("cache") or {}).get("same_second") else 0)
+        seen = set()
+        for what, cls in sl.monitor_cache(c):
+            if what in seen:
+                continue
+            seen.add(what)
+            nfail += 1
+            stats["monitor_classes"][cls["class"]] = stats["monitor_classes"].get(cls["class"], 0) + 1
+            ctx.fail("monitor", what, {"kind": "cache", "steps": c["steps"], "cache": c.get("cache")}, cls=cls)
+    cases = [x for x in cases if x.get("kind") != "cache"]
     for c in cases:
         if tool is not None and shrunk < 2 and not c.get("infra") and unknown_classes(ctx, c):
             # a failing input nobody knows yet: report it shrunk
@@ -253,7 +265,8 @@ def run(ctx):
                        "preconditions, continueOn, handlers, optional stop request, optional held snapshot write); non-trivial = at least "
                        "one dependency edge; distinct by (kind, steps, scripts, handlers).  crash: one case = the real binary on a "
                        "scenario DAG killed at one point; distinct by (scenario, system-call boundary hit | time offset)")
-    ctx.cov["inproc"] = {"cases": len(cases), "corpus_cases": stats.get("corpus_cases", 0), "kinds": kinds, "persisted_lines": stats["lines"], "live_answers": stats["live_answers"],
+    ctx.cov["inproc"] = {"cases": len(cases), "long_lived_reader_streams": stats.get("cache_streams", 0),
+                         "long_lived_reader_streams_within_one_second": stats.get("cache_same_second", 0), "corpus_cases": stats.get("corpus_cases", 0), "kinds": kinds, "persisted_lines": stats["lines"], "live_answers": stats["live_answers"],
                          "synthesized_kill_prefixes": stats["prefix_states"], "seconds": round(t1 - t0, 1),
                          "observed_not_judged": {"status queries answered with an error or the default status while Close compacts the history (original unlinked under the reader)": stats.get("read_errors_during_compaction", 0)}}
     ctx.cov["crash"] = {"runs": len(crash), "uninterrupted_runs_judged": stats.get("ended_runs", 0), "killed": stats["kills"], "ended_before_the_kill": stats["not_killed"], "by_how": stats["by_how"],
@@ -280,6 +293,8 @@ def run(ctx):
     def search():
         more, _, _ = run_inproc(ctx, tool, ctx.seed + 1, "quick", tag="search")
         for c in more or []:
+            if c.get("kind") == "cache":
+                continue
             bad = [w for w, cls in sl.monitor_inproc(c) if ctx.match_known(cls, "monitor") is None]
             bad += [w for _, w, cls in sl.monitor_prefixes(c) if ctx.match_known(cls, "monitor") is None]
             if bad:
